@@ -12,6 +12,11 @@ def describe(case, row):
     if "s" in case:
         chars = sorted(set(c for c in case["s"] if c in ("QUOTE", "BACKSLASH", "NEWLINE")))
         return ":string:%s:%s" % ("+".join(chars) or "plain", "printer" if "printer writes" in p else "reparse")
+    if "item" in case:
+        it = case["item"]
+        keys = "+".join(sorted(set(x for x in it["sc"] + it["sc2"] if x.startswith("K")))) or "nokey"
+        where = "builder" if p.startswith("builder") else "token" if p.startswith("block") or p.startswith("token") else "authorizer"
+        return ":item:%s:%s:%s:%s" % (it["kind"], it["sub"], keys, where)
     root = case["ast"]
     return ":expr:%s:%s" % (root["op"], "printer" if "printer writes" in p else "reparse")
 
@@ -40,11 +45,24 @@ def run(tier, seed):
     e1 = dict(e0, ExportOn=True, SampleN=1 if big else 6)
     res = ctx.tlc("Syntax", vlib.write_cfg(os.path.join(ctx.work, "exprs.cfg"), e1, ["ExportExpr"]), name="exprs", tags=("EXPR",), seed=seed)
     ac.replay(ctx, res.exports["EXPR"], cmd="syntax-replay", sig_prefix="replay:syntax", describe=describe)
+    # items: facts, rules, checks, policies x term types x scopes (both key algorithms) through the three printers
+    i0 = dict(base, Part='"items"', MaxLen=0, ExportOn=False)
+    r1 = ctx.tlc("Syntax", vlib.write_cfg(os.path.join(ctx.work, "items-count.cfg"), i0), name="items-count")
+    r2 = ctx.tlc("Syntax", vlib.write_cfg(os.path.join(ctx.work, "items-view.cfg"), i0, view="ItemView"), name="items-view")
+    ctx.cov["unique_readability_items"] = {"items": r1.distinct, "distinct_texts": r2.distinct}
+    if r1.distinct != r2.distinct:
+        raise vlib.ToolError("Syntax.tla: two items print the same text (%d items, %d texts)" % (r1.distinct, r2.distinct))
+    res = ctx.tlc("Syntax", vlib.write_cfg(os.path.join(ctx.work, "items.cfg"), dict(i0, ExportOn=True), ["ExportItem"]), name="items", tags=("ITEM",), seed=seed)
+    ac.replay(ctx, res.exports["ITEM"], cmd="syntax-replay", sig_prefix="replay:syntax", describe=describe)
     return ctx.finish(
         rule="Strings: every string of length <= 3/4 over a 10-symbol hostile alphabet; spec invariant Lex(PrintStr(s)) = s (one literal, whole text); replay: builder printer and "
              "token (symbol table) printer must write the grammar's literal, the printed fact must parse back to the same single fact and rebuild the same block bytes. "
              "Expressions: 67k derivations of the precedence grammar (17 infix operators, 7 binary and 2 unary methods, all/any closures, prefix !, parentheses); unique readability "
-             "checked by TLC (VIEW on the printed text); replay: AST -> builder ops -> Display must equal the spec's text, and parsing it back must give the same ops.")
+             "checked by TLC (VIEW on the printed text); replay: AST -> builder ops -> Display must equal the spec's text, and parsing it back must give the same ops. "
+             "Items: 1290 facts, rules, checks (check if / check all / reject if, one or two alternatives) and policies over 10 term types x 8 `trusting` annotations (authority, previous, "
+             "ed25519 and secp256r1 keys, combinations); unique readability by TLC; replay: the item built through the builder API is printed by the builder Display, by the token's block "
+             "source (authority and appended block, after a serialization round trip, through the unverified reader) and by the authorizer's dump / world listing; each text must be "
+             "the spec's text and parse back to the same item.")
 
 
 def replay(path, seed):
